@@ -284,13 +284,21 @@ class Gen:
                 out.append(ind + self.println([name]))
         return out
 
+    def stmt_decl(self, sc, ind, t):
+        v = self.fresh()
+        e = self.expr(t, sc, 1)
+        sc.add(v, t)
+        return [ind + "%s := %s" % (v, e)]
+
     def all_types(self):
         return [INT, INT, STR, BOOL, INTS, STRS, MAP, FN] + [s[0] for s in self.structs]
 
     def stmt(self, sc, depth, ind):
         r = self.r
-        k = r.below(20 if depth < 3 else 8)
+        k = r.below(28 if depth < 3 else 8)
         i2 = ind + "\t"
+        if k >= 20:
+            return getattr(self, "t_" + self.pick(self.TEMPLATES))(sc, depth, ind)
         if k < 4:                                           # declaration
             t = self.pick(self.all_types())
             v = self.fresh()
@@ -417,20 +425,8 @@ class Gen:
             self.labels.pop()
             out.append(ind + "}")
             return out
-        if k == 15:                                         # switch
-            self.f("switch")
-            tag = self.expr(INT, sc, 1)
-            out = [ind + "switch %s %% 4 {" % tag]
-            for c in (["0", "1, 2"] if r.below(2) else ["1", "2", "3"]):
-                out.append(ind + "case %s:" % c)
-                out += self.block(sc, depth + 1, 1, i2)
-                if r.below(5) == 0:
-                    out.append(i2 + "fallthrough")
-                    self.f("fallthrough")
-            out.append(ind + "default:")
-            out += self.block(sc, depth + 1, 1, i2)
-            out.append(ind + "}")
-            return out
+        if k == 15:                                         # switch (tagged)
+            return self.gen_switch(sc, depth, ind, tagged=True)
         if k == 16:                                         # defer / recover in a closure
             self.f("defer-recover")
             v = self.fresh()
@@ -460,15 +456,8 @@ class Gen:
                 self.f("struct")
                 return [ind + "%s := %s" % (v, e)]
             return [ind + self.println([self.expr(BOOL, sc)])]
-        if k == 18:                                         # switch on string / no tag
-            self.f("switch-notag")
-            out = [ind + "switch {"]
-            out.append(ind + "case %s:" % self.expr(BOOL, sc, 1))
-            out += self.block(sc, depth + 1, 1, i2)
-            out.append(ind + "case %s:" % self.expr(BOOL, sc, 1))
-            out += self.block(sc, depth + 1, 1, i2)
-            out.append(ind + "}")
-            return out
+        if k == 18:                                         # switch (tagless)
+            return self.gen_switch(sc, depth, ind, tagged=False)
         if k == 19 and self.xgo and self.errfuncs:          # error wrapping
             f = self.pick(self.errfuncs)
             v = self.fresh()
@@ -477,6 +466,220 @@ class Gen:
             self.f("xgo-errwrap")
             return [ind + "%s := %s(%s)?:%s" % (v, f, e, self.lit_int())]
         return [ind + self.println([self.expr(self.pick(SCALARS), sc)])]
+
+    # ------------------------------------------------------------ switch statements
+    def gen_switch(self, sc, depth, ind, tagged, ncase=None, dpos="rand", ft=None, init=None):
+        """expression switch with 1-4 case clauses over the values 0..3 of `x % 4`, a default clause at
+        any position (or none), fallthrough at the end of any clause but the last (case AND default)"""
+        r = self.r
+        i2 = ind + "\t"
+        ncase = ncase or 1 + r.below(3)
+        vals = [0, 1, 2, 3]
+        groups = []
+        for c in range(ncase):
+            g = [vals.pop(r.below(len(vals)))]
+            if vals and len(vals) > ncase - c - 1 and r.below(4) == 0:
+                g.append(vals.pop(r.below(len(vals))))
+            groups.append(g)
+        clauses = [("case", g) for g in groups]
+        if dpos == "rand":
+            dpos = r.below(ncase + 2) - 1          # -1 = no default
+        if dpos >= 0:
+            clauses.insert(min(dpos, len(clauses)), ("default", None))
+            self.f("switch-default-%s" % ("first" if dpos == 0 else "last" if dpos >= ncase else "middle"))
+        else:
+            self.f("switch-no-default")
+        tag = self.expr(INT, sc, 1)
+        sv = self.fresh("sw")
+        use_init = r.below(3) == 0 if init is None else init
+        self.f("switch-tagged" if tagged else "switch-tagless")
+        if use_init:
+            self.f("switch-init")
+            sel = "((%s %% 4) + 4) %% 4" % sv
+            head = "switch %s := %s; %s {" % (sv, tag, sel) if tagged else "switch %s := %s; {" % (sv, tag)
+        else:
+            sel = "((%s %% 4) + 4) %% 4" % tag
+            head = "switch %s {" % sel if tagged else "switch {"
+        out = [ind + head]
+        for n, (kind, g) in enumerate(clauses):
+            if kind == "default":
+                out.append(ind + "default:")
+            elif tagged:
+                out.append(ind + "case %s:" % ", ".join(str(v) for v in g))
+            else:
+                out.append(ind + "case %s:" % " || ".join("%s == %d" % (sel, v) for v in g))
+            out += self.block(sc, depth + 1, 1, i2)
+            last = n == len(clauses) - 1
+            fall = (ft[n] if ft is not None else r.below(4) == 0) and not last
+            if fall:
+                out.append(i2 + "fallthrough")
+                self.f("fallthrough-from-" + kind)
+        out.append(ind + "}")
+        return out
+
+    # ------------------------------------------------------------ one template per remaining statement kind
+    TEMPLATES = ["goto", "typeswitch", "select", "defer_order", "closure_capture", "method_value", "multi_assign",
+                 "shadow", "loop_switch_labels", "while_loops", "const_iota", "range_forms", "array_value", "if_init", "variadic"]
+
+    def t_goto(self, sc, depth, ind):
+        self.f("stmt:goto")
+        g, l = self.fresh("g"), self.fresh("Lg")
+        return [ind + "%s := 0" % g, ind[:-1] + l + ":", ind + "%s++" % g, ind + "if %s < %s {" % (g, self.pick(["2", "3", "4"])),
+                ind + "\tgoto %s" % l, ind + "}", ind + "fmt.Println(\"goto\", %s)" % g]
+
+    def t_typeswitch(self, sc, depth, ind):
+        self.f("stmt:typeswitch")
+        i2 = ind + "\t"
+        iv, tv = self.fresh("iv"), self.fresh("tv")
+        t = self.pick([INT, STR, BOOL, INTS, MAP])
+        out = [ind + "var %s interface{} = %s" % (iv, self.expr(t, sc, 1))]
+        bind = self.r.below(3) > 0
+        out.append(ind + ("switch %s := %s.(type) {" % (tv, iv) if bind else "switch %s.(type) {" % iv))
+        clauses = [("case int:", "fmt.Println(\"int\", %s+1)" % tv if bind else "fmt.Println(\"int\")"),
+                   ("case string, bool:", "fmt.Println(\"string-or-bool\", %s)" % tv if bind else "fmt.Println(\"string-or-bool\")"),
+                   ("case []int:", "fmt.Println(\"ints\", len(%s))" % tv if bind else "fmt.Println(\"ints\")"),
+                   ("case nil:", "fmt.Println(\"nil\")")]
+        keep = [c for c in clauses if self.r.below(4) > 0]
+        d = ("default:", "fmt.Println(\"other\", %s)" % tv if bind else "fmt.Println(\"other\")")
+        keep.insert(self.r.below(len(keep) + 1), d)
+        for h, b in keep:
+            out += [ind + h, i2 + b]
+        out.append(ind + "}")
+        return out
+
+    def t_select(self, sc, depth, ind):
+        self.f("stmt:select")
+        i2 = ind + "\t"
+        c, v = self.fresh("ch"), self.fresh("rv")
+        out = [ind + "%s := make(chan int, 1)" % c]
+        if self.r.below(2):
+            out.append(ind + "%s <- %s" % (c, self.expr(INT, sc, 2)))
+        out += [ind + "select {", ind + "case %s := <-%s:" % (v, c), i2 + "fmt.Println(\"received\", %s)" % v,
+                ind + "default:", i2 + "fmt.Println(\"empty\", len(%s), cap(%s))" % (c, c), ind + "}"]
+        if self.r.below(2):
+            out += [ind + "select {", ind + "case %s <- %s:" % (c, self.expr(INT, sc, 2)), i2 + "fmt.Println(\"sent\", len(%s))" % c,
+                    ind + "default:", i2 + "fmt.Println(\"full\")", ind + "}"]
+        return out
+
+    def t_defer_order(self, sc, depth, ind):
+        self.f("stmt:defer-order")
+        i2 = ind + "\t"
+        d = self.fresh("d")
+        return [ind + "func() {", i2 + "for %s := 0; %s < 3; %s++ {" % (d, d, d),
+                i2 + "\tdefer fmt.Println(\"deferred\", %s, %s)" % (d, self.expr(INT, sc, 2)), i2 + "}",
+                i2 + "defer func() {", i2 + "\tfmt.Println(\"deferred closure\")", i2 + "}()",
+                i2 + "fmt.Println(\"body done\")", ind + "}()"]
+
+    def t_closure_capture(self, sc, depth, ind):
+        self.f("stmt:closure-capture")
+        i2 = ind + "\t"
+        fs, i, f, acc = self.fresh("fs"), self.fresh("i"), self.fresh("f"), self.fresh("acc")
+        return [ind + "var %s []func() int" % fs, ind + "%s := 0" % acc, ind + "for %s := 0; %s < 3; %s++ {" % (i, i, i),
+                i2 + "%s = append(%s, func() int {" % (fs, fs), i2 + "\t%s += %s" % (acc, i),
+                i2 + "\treturn %s*10 + %s" % (i, acc), i2 + "})", ind + "}",
+                ind + "for _, %s := range %s {" % (f, fs), i2 + "fmt.Println(%s())" % f, ind + "}", ind + "fmt.Println(%s)" % acc]
+
+    def t_method_value(self, sc, depth, ind):
+        sv = [(n, t) for (n, t) in self.struct_vars(sc) if not any(a[0] == n and a[1].startswith("*") for a in sc.all())]
+        cands = []
+        for n, t in sv:
+            st = [x for x in self.structs if x[0] == t][0]
+            for m in st[2]:
+                cands.append((n, t, m))
+        if not cands:
+            return self.t_multi_assign(sc, depth, ind)
+        self.f("stmt:method-value")
+        n, t, (mname, ptr, params, ret) = self.pick(cands)
+        mv, me = self.fresh("mv"), self.fresh("me")
+        args = ", ".join(self.expr(p, sc, 2) for p in params)
+        out = [ind + "%s := %s.%s" % (mv, n, mname), ind + "fmt.Println(%s(%s))" % (mv, args)]
+        recv = "(*%s)" % t if ptr else t
+        out += [ind + "%s := %s.%s" % (me, recv, mname),
+                ind + "fmt.Println(%s(%s%s))" % (me, ("&" + n) if ptr else n, (", " + args) if args else "")]
+        return out
+
+    def t_multi_assign(self, sc, depth, ind):
+        self.f("stmt:multi-assign")
+        a, b, xs = self.fresh("a"), self.fresh("b"), self.fresh("sw")
+        return [ind + "%s, %s := %s, %s" % (a, b, self.expr(INT, sc, 2), self.expr(INT, sc, 2)),
+                ind + "%s, %s = %s, %s+%s" % (a, b, b, a, b),
+                ind + "%s := append([]int{7, 8}, %s)" % (xs, a),
+                ind + "%s[0], %s[1], %s[2] = %s[2], %s[0], %s[1]" % (xs, xs, xs, xs, xs, xs),
+                ind + "fmt.Println(%s, %s, %s)" % (a, b, xs)]
+
+    def t_shadow(self, sc, depth, ind):
+        ints = sc.of(INT)
+        if not ints:
+            return self.t_multi_assign(sc, depth, ind)
+        self.f("stmt:shadow")
+        n = self.pick(ints)
+        i2 = ind + "\t"
+        return [ind + "{", i2 + "%s := %s*2 + 1" % (n, n), i2 + "if %s := %s + 1; %s > 0 {" % (n, n, n),
+                i2 + "\tfmt.Println(\"inner-most\", %s)" % n, i2 + "}", i2 + "fmt.Println(\"shadow\", %s)" % n, ind + "}",
+                ind + "fmt.Println(\"outer\", %s)" % n]
+
+    def t_loop_switch_labels(self, sc, depth, ind):
+        self.f("stmt:loop-switch-labels")
+        i2 = ind + "\t"
+        l, i, j = self.fresh("Lb"), self.fresh("i"), self.fresh("j")
+        a, b = self.pick(["0", "1", "2"]), self.pick(["2", "3"])
+        return [ind[:-1] + l + ":", ind + "for %s := 0; %s < 4; %s++ {" % (i, i, i),
+                i2 + "for %s := 0; %s < 3; %s++ {" % (j, j, j),
+                i2 + "\tswitch {", i2 + "\tcase %s == %s:" % (j, a), i2 + "\t\tcontinue %s" % l,
+                i2 + "\tcase %s == %s && %s == 1:" % (i, b, j), i2 + "\t\tbreak %s" % l,
+                i2 + "\tcase %s == 2:" % j, i2 + "\t\tbreak", i2 + "\t}",
+                i2 + "\tfmt.Println(\"at\", %s, %s)" % (i, j), i2 + "}", ind + "}"]
+
+    def t_while_loops(self, sc, depth, ind):
+        self.f("stmt:while-and-forever")
+        i2 = ind + "\t"
+        w = self.fresh("w")
+        return [ind + "%s := 0" % w, ind + "for %s < 3 {" % w, i2 + "%s++" % w, ind + "}",
+                ind + "for {", i2 + "%s += 2" % w, i2 + "if %s > %s {" % (w, self.pick(["5", "8"])), i2 + "\tbreak", i2 + "}",
+                i2 + "if %s%%2 == 0 {" % w, i2 + "\tcontinue", i2 + "}", i2 + "fmt.Println(\"odd\", %s)" % w, ind + "}",
+                ind + "fmt.Println(%s)" % w]
+
+    def t_const_iota(self, sc, depth, ind):
+        self.f("stmt:const-iota")
+        i2 = ind + "\t"
+        a, b, c = self.fresh("cA"), self.fresh("cB"), self.fresh("cC")
+        return [ind + "const (", i2 + "%s = iota*2 + 1" % a, i2 + b, i2 + c, ind + ")",
+                ind + "var (", i2 + "%sv, %sw int = %s, %s" % (a, a, b, c), i2 + "%ss = \"s\"" % a, ind + ")",
+                ind + "fmt.Println(%s, %s, %s, %sv+%sw, %ss)" % (a, b, c, a, a, a)]
+
+    def t_range_forms(self, sc, depth, ind):
+        self.f("stmt:range-forms")
+        i2 = ind + "\t"
+        i, r_, k = self.fresh("i"), self.fresh("r"), self.fresh("k")
+        s = self.expr(STR, sc, 2)
+        xs = self.expr(INTS, sc, 2)
+        return [ind + "for %s, %s := range %s {" % (i, r_, s), i2 + "fmt.Println(%s, %s, string(%s))" % (i, r_, r_), ind + "}",
+                ind + "for %s := range %s {" % (k, xs), i2 + "fmt.Println(\"index\", %s)" % k, ind + "}",
+                ind + "for range []int{1, 2} {", i2 + "fmt.Println(\"tick\")", ind + "}"]
+
+    def t_array_value(self, sc, depth, ind):
+        self.f("stmt:array-and-pointer")
+        a, b, p = self.fresh("arr"), self.fresh("cp"), self.fresh("ptr")
+        return [ind + "%s := [3]int{1, 2, %s}" % (a, self.expr(INT, sc, 2)), ind + "%s := %s" % (b, a), ind + "%s := &%s" % (p, a),
+                ind + "%s[0] = 9" % b, ind + "%s[1] = 7" % p, ind + "(*%s)[2]++" % p,
+                ind + "fmt.Println(%s, %s, *%s, len(%s), %s == %s)" % (a, b, p, p, a, b)]
+
+    def t_if_init(self, sc, depth, ind):
+        self.f("stmt:if-init-else-chain")
+        i2 = ind + "\t"
+        v = self.fresh("iv")
+        return [ind + "if %s := %s; %s > 10 {" % (v, self.expr(INT, sc, 1), v), i2 + "fmt.Println(\"big\", %s)" % v,
+                ind + "} else if %s < 0 {" % v, i2 + "fmt.Println(\"negative\", %s)" % v,
+                ind + "} else if %s := %s * 2; %s == 0 {" % (v, v, v), i2 + "fmt.Println(\"zero\", %s)" % v,
+                ind + "} else {", i2 + "fmt.Println(\"small\", %s)" % v, ind + "}"]
+
+    def t_variadic(self, sc, depth, ind):
+        self.f("stmt:variadic-and-multi-return")
+        xs = self.expr(INTS, sc, 2)
+        q, rr = self.fresh("q"), self.fresh("r")
+        return [ind + "fmt.Println(sum(), sum(1), sum(1, 2, %s), sum(%s...))" % (self.expr(INT, sc, 2), xs),
+                ind + "%s, %s := divmod(%s, %s)" % (q, rr, self.expr(INT, sc, 2), self.pick(["3", "7"])),
+                ind + "fmt.Println(%s, %s)" % (q, rr), ind + "_, %s = divmod(%s, 2)" % (rr, q), ind + "fmt.Println(%s)" % rr]
 
     # ------------------------------------------------------------ declarations
     def gen_struct(self):
@@ -556,6 +759,17 @@ func clip(s string) string {
 	return s
 }
 
+func sum(xs ...int) (t int) {
+	for _, x := range xs {
+		t += x
+	}
+	return
+}
+
+func divmod(a, b int) (int, int) {
+	return a / b, a % b
+}
+
 func tr(name string, v int) int {
 	fmt.Println("init", name, v)
 	return v
@@ -626,6 +840,68 @@ func keys(m map[string]int) []string {
         imps = "import (\n" + "".join('\t"%s"\n' % i for i in sorted(self.imports)) + ")\n"
         body = "\n\n".join("\n".join(d) for d in decls + [main])
         return "package main\n\n" + imps + "\n" + self.HELPERS + "\n" + body + "\n"
+
+
+def switch_matrix_program():
+    """every expression switch with 1-3 case clauses, a default clause at every position or none, every
+    subset of clauses (but the last) ending in fallthrough, tagged and tagless, run on every selecting value"""
+    funcs, calls = [], []
+    n = 0
+    for tagged in (True, False):
+        for ncase in (1, 2, 3):
+            for dpos in [-1] + list(range(ncase + 1)):
+                clauses = [("case", v) for v in range(ncase)]
+                if dpos >= 0:
+                    clauses.insert(dpos, ("default", None))
+                k = len(clauses) - 1
+                for mask in range(1 << k):
+                    n += 1
+                    body = ["func sw%d(x int) string {" % n, "\ts := \"\"", "\tswitch x {" if tagged else "\tswitch {"]
+                    for ci, (kind, v) in enumerate(clauses):
+                        if kind == "default":
+                            body.append("\tdefault:")
+                            body.append("\t\ts += \"d \"")
+                        else:
+                            body.append("\tcase %s:" % (str(v) if tagged else "x == %d" % v))
+                            body.append("\t\ts += \"c%d \"" % v)
+                        if ci < k and mask >> ci & 1:
+                            body.append("\t\tfallthrough")
+                    body += ["\t}", "\treturn s", "}"]
+                    funcs.append("\n".join(body))
+                    calls.append("\tfor x := 0; x <= %d; x++ {\n\t\tfmt.Println(%d, x, sw%d(x))\n\t}" % (ncase, n, n))
+    return "package main\n\nimport \"fmt\"\n\n" + "\n\n".join(funcs) + "\n\nfunc main() {\n" + "\n".join(calls) + "\n}\n", n
+
+
+def statement_kinds_program(rng):
+    """one program that contains every statement-kind template once (plus both switch kinds with default first,
+    in the middle and last): the statement kinds are covered on every run whatever the seed"""
+    g = Gen(rng, xgo=False)
+    g.gen_struct()
+    g.gen_struct()
+    decls = [["type %s struct {" % st[0]] + ["\t%s %s" % f for f in st[1]] + ["}"] for st in g.structs]
+    for st in g.structs:
+        decls.append(g.gen_method(st))
+        decls.append(g.gen_method(st))
+    decls.append(g.gen_func())
+    sc = Scope(g.root)
+    main = ["func main() {"]
+    main += g.stmt_decl(sc, "\t", INT) + g.stmt_decl(sc, "\t", STR) + g.stmt_decl(sc, "\t", INTS)
+    for st in g.structs:
+        v = g.fresh()
+        main.append("\t%s := %s" % (v, g.expr(st[0], sc, 1)))
+        sc.add(v, st[0])
+    for name in g.TEMPLATES:
+        main += getattr(g, "t_" + name)(sc, 0, "\t")
+    for tagged in (True, False):
+        for dpos in (0, 1, 3):
+            main += g.gen_switch(sc, 0, "\t", tagged, ncase=3, dpos=dpos, ft=[True, False, True, False], init=(dpos == 1))
+    for (name, typ) in sc.own:
+        main.append("\tfmt.Println(%s)" % name)
+    main.append("}")
+    g.imports.add("sort")
+    imps = "import (\n" + "".join('\t"%s"\n' % i for i in sorted(g.imports)) + ")\n"
+    body = "\n\n".join("\n".join(d) for d in decls + [main])
+    return "package main\n\n" + imps + "\n" + g.HELPERS + "\n" + body + "\n", g.feat
 
 
 def go_program(rng):
